@@ -9,7 +9,7 @@ INV = {
     "C14": ["Inv_Once", "Inv_Same", "Inv_Delivered"],
     "C15": ["Inv_Armed", "Inv_TimeoutHasConn"],
     "C16": ["Inv_RetryNum", "Inv_NoSpecUnlessIdempotent"],
-    "C17": ["Inv_PlanOrder", "Inv_Skipped", "Inv_Exhausted", "Inv_Target"],
+    "C17": ["Inv_PlanOrder", "Inv_Skipped", "Inv_Exhausted", "Inv_Target", "Inv_NHAListed"],
 }
 PROPS = {
     "C14": [], "C15": [],
@@ -24,7 +24,7 @@ ALLK = {"ReadTimeout", "WriteTimeout", "Unavailable", "OverloadedErrorMessage", 
 D4 = {"RETRY", "NEXT", "RETHROW", "IGNORE"}
 BASE = dict(NHosts=3, PoolConds=set(), MaxBad=0, SpecChoices={0, 1, 2}, IdemChoices={True}, TargetChoices={0},
             OkKinds={"rows"}, ErrKinds={"Unavailable"}, FatalKinds=set(), Decisions=D4, CLs={99}, MaxRetries=1,
-            MaxEpoch=1, Timeouts=True, Late=True, IdChoices={"default"})
+            MaxEpoch=1, Timeouts=True, Late=True, IdChoices={"default"}, TimeChoices={0})
 
 
 def _c(**kw):
@@ -39,7 +39,10 @@ GRAPHS = {
              _c(ErrKinds={"Unavailable"}, Decisions=D4))],
     "C15": [("silent / late nodes, first page and next page, missing or busy pools",
              _c(OkKinds={"rows", "more"}, Decisions={"RETRY", "NEXT"}, MaxEpoch=2, Late=False,
-                PoolConds={"missing", "busy"}, MaxBad=1, IdChoices={"one"}))],
+                PoolConds={"missing", "busy"}, MaxBad=1, IdChoices={"one"})),
+            ("speculative delays that do / do not fit into what remains of the timeout (timeout, delay) = (5,2) (4,2) (1,2)",
+             _c(SpecChoices={1, 3}, OkKinds={"rows", "more"}, Decisions={"RETRY"}, MaxEpoch=2, Late=False,
+                TimeChoices={502, 402, 102}))],
     "C16": [("every retryable error x every decision x consistency x idempotence",
              _c(SpecChoices={0, 1}, IdemChoices={True, False}, ErrKinds=ALLK, CLs={99, 0, 4}, Late=False, Timeouts=False))],
     "C17": [("all 5^3 pool vectors, explicit target host or none",
@@ -74,18 +77,18 @@ BIG = {
 LIVENESS = _c(NHosts=2, OkKinds={"rows", "more"}, Decisions={"RETRY", "NEXT", "RETHROW"}, MaxEpoch=2, Late=False,
               PoolConds={"missing"}, MaxBad=1)
 TRACE_CONSTS = dict(NHosts=3, PoolConds={"missing", "shutdown", "busy", "failing", "unwritable", "noconn"}, MaxBad=3,
-                    SpecChoices={0, 1, 2}, IdemChoices={True, False}, TargetChoices={0, 1, 2, 3},
+                    SpecChoices={0, 1, 2, 3}, IdemChoices={True, False}, TargetChoices={0, 1, 2, 3},
                     OkKinds={"rows", "more", "void"}, ErrKinds=ALLK, FatalKinds={"SyntaxException", "InvalidRequest"},
                     Decisions=D4, CLs={99, 0, 1, 4}, MaxRetries=3, MaxEpoch=2, Timeouts=True, Late=True,
-                    IdChoices={"default", "zero", "one"})
+                    IdChoices={"default", "zero", "one"}, TimeChoices={0, 502, 402, 102})
 
-ACTIONS = ["Start", "AnsOk", "AnsErr", "SpecFire", "TimeoutFire", "RetryTask"]
+ACTIONS = ["Start", "AnsOk", "AnsErr", "StoreErr", "SpecFire", "TimeoutFire", "RetryTask"]
 # Witness_* predicates of Request.tla (negated reachability) that TLC itself must violate on the first graph configuration
 TLA_WITNESSES = {
     "C14": ["Witness_LateAnswer", "Witness_TwoInFlight", "Witness_TimeoutKeepsAtt", "Witness_RetryAfterTimeout"],
-    "C15": ["Witness_Page2Unset", "Witness_Page2Timeout"],
+    "C15": ["Witness_Page2Unset", "Witness_Page2Timeout", "Witness_Unfit"],
     "C16": ["Witness_SameHostTwice", "Witness_RetryCL", "Witness_RetryAtANY"],
-    "C17": ["Witness_NoHost", "Witness_NoHostAfterSend", "Witness_SkipAll"],
+    "C17": ["Witness_NoHost", "Witness_NoHostAfterSend", "Witness_SkipAll", "Witness_TaskBeforeStore"],
 }
 
 
@@ -107,6 +110,7 @@ WITNESS = {
         "second page incomplete": lambda s: s["epoch"] == 2 and s["final"] == "unset",
         "second page timed out": lambda s: s["epoch"] == 2 and s["final"] == "OperationTimedOut",
         "speculative timer re-armed": lambda s: s["act"]["name"] == "SpecFire" and s["timer"] == "spec",
+        "speculative execution offered but its delay does not fit into the remaining timeout": lambda s: bool(s["unfit"]) and s["tm"][0] > 0,
         "timeout timer after speculative executions": lambda s: s["act"]["name"] == "SpecFire" and s["timer"] == "timeout",
     },
     "C16": {
@@ -122,6 +126,8 @@ WITNESS = {
         "NoHostAvailable after a send": lambda s: s["final"] == "NoHostAvailable" and len(s["sentLog"]) > 0,
         "every host has an error entry": lambda s: s["started"] and all(e != "none" for e in _tup(s["errs"])),
         "first attempt carries stream id 0": lambda s: s["started"] and str(s["ids"]) in ("zero", "one") and len(s["sentLog"]) > 0,
+        "retry task raised NoHostAvailable before the failed host's error was stored":
+            lambda s: s["act"]["name"] == "RetryTask" and s["pend"]["host"] != 0 and s["final"] == "NoHostAvailable",
         "explicit target host": lambda s: s["started"] and s["target"] != 0,
         "retry on a host whose pool lost its connection": lambda s: s["act"]["name"] == "RetryTask"
         and "noconn" in _tup(s["pool"]) and len(s["sentLog"]) >= 2,
@@ -479,7 +485,7 @@ def replay(ctx, pid, obj):
     if "actions" in obj:
         cfg = obj["config"]
         h = rq.ReqHarness(obj["nhosts"], cfg["pool"], cfg["idem"], cfg["spec"], cfg["target"], max_epoch=obj.get("max_epoch", 2),
-                          ids=cfg.get("ids", "default"))
+                          ids=cfg.get("ids", "default"), tm=tuple(cfg.get("tm", (0, 0))))
         print("config", cfg)
         acts = list(obj["actions"])
         dv = obj.get("divergence") or {}
